@@ -91,10 +91,9 @@ def _parse(r):
     m = _DEPTH.search(r.out)
     if m:
         r.depth = int(m.group(1))
+    r.printed = parse_prints(r.out)
     for line in r.out.splitlines():
         s = line.strip()
-        if s.startswith('<<"') or s.startswith('"V|'):
-            r.printed.append(s)
         m = re.match(r'Error: Invariant (\S+) is violated', s)
         if m:
             r.violation = m.group(1)
@@ -143,3 +142,35 @@ def jsonable(o):
     if isinstance(o, (list, tuple)):
         return [jsonable(v) for v in o]
     return o
+
+
+def parse_prints(out):
+    """PrintT values (tuples) possibly wrapped over several lines -> one normalised string each."""
+    res = []
+    buf = None
+    depth = 0
+    for line in out.splitlines():
+        s = line.strip()
+        if buf is None:
+            if s.startswith('<<'):
+                buf = ''
+                depth = 0
+            else:
+                continue
+        buf += (' ' if buf else '') + s
+        # count brackets outside string literals
+        instr = False
+        for i, ch in enumerate(s):
+            if ch == '"':
+                instr = not instr
+            elif not instr:
+                if s[i:i + 2] == '<<':
+                    depth += 1
+                elif s[i:i + 2] == '>>':
+                    depth -= 1
+        if depth <= 0:
+            b = re.sub(r'\s+', ' ', buf)
+            b = b.replace('<< ', '<<').replace(' >>', '>>')
+            res.append(b)
+            buf = None
+    return res
